@@ -162,9 +162,17 @@ pub fn on_trans(tc: &TransCtx, sink: &mut Sink) {
         Req::CreateAsk { .. } | Req::CreateBid { .. } => c07_admission(tc, sink),
         Req::ApproveAsk { .. } => c08_approve(tc, sink),
         Req::Modify(m) => c12_modify(tc, m, sink),
-        Req::Migrate(_) => {
+        Req::Migrate(msg) => {
             if tc.out.is_accepted() {
                 sink.c("migrate/accepted-as-a-step-of-a-history");
+                // C05: the approver list is the configured one: an accepted upgrade that names a list installs exactly that list
+                if let (Some(list), Some(post)) = (msg.get("approvers").and_then(|v| v.as_array()), tc.post.as_ref().and_then(|b| b.info.as_ref())) {
+                    let want: Vec<String> = list.iter().filter_map(|v| v.as_str().map(|s| s.to_string())).collect();
+                    sink.c("C05/migrate/approver-list-named");
+                    if want != post.approvers {
+                        sink.v("C05", "C05/migrate/approver-list-not-as-configured".into(), format!("accepted upgrade names {want:?}, stored {:?}", post.approvers));
+                    }
+                }
             }
         }
     }
@@ -2121,6 +2129,20 @@ fn c17_attributes(tc: &TransCtx, a: &Accepted, post: &Book, sink: &mut Sink) {
                     sink.cs(format!("C17/execute/ask_fee-{}", if x == 0 { "zero" } else { "nonzero" }));
                     if num_attr("ask_fee") != Some(x) {
                         sink.v("C17", format!("C17/{kind}/ask_fee-attribute"), format!("{:?} vs paid {x}", attr(a, "ask_fee")));
+                    }
+                }
+                // the seller (or the approver of a ready ask) is the ask-fee account: it receives proceeds and fee, i.e. the whole executed amount
+                if let Some(acct) = askacct {
+                    let seller: &str = match &pa.class {
+                        AskClass::Ready { approver, .. } => approver,
+                        _ => &pa.owner,
+                    };
+                    if acct == seller && acct != pb.owner && Some(acct) != bidacct && acct != CONTRACT && r.failed.is_empty() && r.unclear.is_none() {
+                        sink.c("C17/execute/seller-is-ask-fee-account");
+                        let got: u128 = a.flows.iter().filter(|f| f.from == CONTRACT && f.to == acct && f.denom == pb.quote_denom).map(|f| f.amount).sum();
+                        if got != r.gross {
+                            sink.v("C17", format!("C17/{kind}/reported-ask-fee-not-received-by-the-selling-fee-account"), format!("ask_fee {:?} reported; {acct} is seller and fee account and received {got} of {} executed", attr(a, "ask_fee"), r.gross));
+                        }
                     }
                 }
                 // one account for both fees: what reached it is the sum of the two reported fees
